@@ -17,4 +17,8 @@ from compile_engine import CompileEngine, Case
 eng = CompileEngine("SETUP")
 eng.run_cases([Case("warm", "pub fn run(r: &mut super::R) { r.check(\"warm\", true); }")])
 print("compile engine warmed")
+import subprocess
+env = common.base_env(); env["CARGO_TARGET_DIR"] = os.path.join(common.TARGET, "dbgtuple")
+p = subprocess.run(["cargo", "build", "--release", "--offline", "--quiet"], cwd=os.path.join(common.VERIF, "engines", "dbgtuple"), env=env)
+print("dbgtuple engine:", "ok" if p.returncode == 0 else "FAILED")
 PY
